@@ -37,7 +37,11 @@ def compare_sets(ctx, sig, desc, expected, got):
         ctx.disagree(f"{sig}:error:{got[1]}", desc, [[str(x) for x in e] for e in expected], got[1:3], replay=[desc])
         return
     pts = []
+    from geometer.point import PointTensor
     for x in got[1]:
+        if not isinstance(x, PointTensor):
+            ctx.disagree(f"{sig.split(':')[0]}:result-class", desc, "Point / PointCollection objects", type(x).__name__, replay=[desc])
+            return
         arr = np.asarray(x.array)
         if arr.ndim == 1:
             pts.append(arr)
@@ -182,6 +186,10 @@ def seg3d_stream(ctx, n):
         S1 = g.Segment(g.Point(*map(float, a)), g.Point(*map(float, b)))
         S2 = g.Segment(g.Point(*map(float, c)), g.Point(*map(float, d)))
         compare_sets(ctx, f"C18:segseg:3d:{kind}", desc, exp, call_impl(lambda: S1.intersect(S2)))
+        # the same against the supporting LINE of the second segment
+        L2 = g.Line(g.Point(*map(float, c)), g.Point(*map(float, d)))
+        expl = [x + [Fr(1)]] if (kind != "skew" and mem[2 * i]) else []
+        compare_sets(ctx, f"C18:segline:3d:{kind}", desc + " (second as a line)", expl, call_impl(lambda: S1.intersect(L2)))
         # segment x plane through x with normal chosen so that the segment is transversal
         nrm = [Fr(rng.randint(-2, 2)) for _ in range(3)]
         dn = sum(nrm[j] * u[j] for j in range(3))
